@@ -7,7 +7,7 @@ use std::cell::RefCell;
 use std::io::Write;
 use std::sync::atomic::{AtomicBool, AtomicUsize, Ordering};
 
-use truc_runtime::convert::{try_convert_vec_in_place, VecElementConversionResult};
+use truc_runtime::convert::{convert_vec_in_place, try_convert_vec_in_place, VecElementConversionResult};
 use verif_harness::Rng;
 
 // ---- counting allocator: watches one address -------------------------------------------------
@@ -103,6 +103,8 @@ elem!(TWide16, "T", [u32; 2], [0; 2], #[repr(C, align(8))]); // size 16 align 8
 elem!(UWide8, "U", [u32; 2], [0; 2], #[repr(C)]);            // size 16 align 4
 elem!(TOver16, "T", (), (), #[repr(C, align(16))]);          // size 16 align 16
 
+thread_local! { static USE_WRAPPER: std::cell::Cell<bool> = std::cell::Cell::new(false); }
+
 fn run_script<T: Elem, U: Elem>(n: usize, script: &[String]) -> String {
     L.with(|l| {
         *l.borrow_mut() = Ledger { script: script.to_vec(), ..Default::default() };
@@ -118,8 +120,9 @@ fn run_script<T: Elem, U: Elem>(n: usize, script: &[String]) -> String {
     WATCH.store(if has_alloc { ptr } else { 0 }, Ordering::SeqCst);
     FREED.store(false, Ordering::SeqCst);
     BADFREE.store(false, Ordering::SeqCst);
+    let wrapper = USE_WRAPPER.with(|w| w.get());
     let res = std::panic::catch_unwind(std::panic::AssertUnwindSafe(|| {
-        try_convert_vec_in_place::<T, U, _, ErrVal>(v, |t: T, prev: Option<&mut U>| {
+        let conv = |t: T, prev: Option<&mut U>| -> Result<VecElementConversionResult<U>, ErrVal> {
             let (k, code) = L.with(|l| {
                 let mut l = l.borrow_mut();
                 let k = l.call;
@@ -142,7 +145,14 @@ fn run_script<T: Elem, U: Elem>(n: usize, script: &[String]) -> String {
                 "p2" => { drop(t); std::panic::panic_any(Payload(4000 + k)) }
                 _ => { drop(t); let _u = U::make(1000 + k as u32); std::panic::panic_any(Payload(4000 + k)) }
             }
-        })
+        };
+        if wrapper {
+            // the infallible entry point (scripts without the `e` code): same behaviour through `convert_vec_in_place`
+            let conv = std::panic::AssertUnwindSafe(conv);
+            Ok(convert_vec_in_place::<T, U, _>(v, move |t, prev| match (conv.0)(t, prev) { Ok(r) => r, Err(_) => unreachable!() }))
+        } else {
+            try_convert_vec_in_place::<T, U, _, ErrVal>(v, conv)
+        }
     }));
     let freed = FREED.load(Ordering::SeqCst);
     let badfree = BADFREE.load(Ordering::SeqCst);
@@ -301,7 +311,9 @@ fn refusals(n: usize, zst: &mut dyn Write) {
 const CODES: [&str; 8] = ["c", "t", "r", "a", "e", "p1", "p2", "p3"];
 
 fn dispatch(pair: &str, n: usize, script: &[String]) -> (String, String) {
-    // returns (request line, implementation answer)
+    // returns (request line, implementation answer); a `-w` suffix drives the infallible wrapper `convert_vec_in_place`
+    let (pair, wrapper) = match pair.strip_suffix("-w") { Some(p) => (p, true), None => (pair, false) };
+    USE_WRAPPER.with(|w| w.set(wrapper && !script.iter().take(n).any(|c| c == "e")));
     let (lay, ans) = match pair {
         "plain" => ((8, 4, 8, 4), run_script::<TPlain, UPlain>(n, script)),
         "heap" => ((16, 8, 16, 8), run_script::<THeap, UHeap>(n, script)),
@@ -356,9 +368,9 @@ fn main() {
             for idx in 0..total {
                 let mut x = idx;
                 let script: Vec<String> = (0..n).map(|_| { let c = CODES[x % 8]; x /= 8; c.to_string() }).collect();
-                emit("plain", n, &script, &mut req, &mut imp);
+                emit(if idx % 5 == 1 { "plain-w" } else { "plain" }, n, &script, &mut req, &mut imp);
                 nscripts += 1;
-                if idx % 7 == 0 { emit("heap", n, &script, &mut req, &mut imp); nscripts += 1; }
+                if idx % 7 == 0 { emit(if idx % 14 == 0 { "heap-w" } else { "heap" }, n, &script, &mut req, &mut imp); nscripts += 1; }
                 if idx % 64 == 0 {
                     let (a, b) = run_zst(n, &script);
                     writeln!(zst, "{} | {} | {}", script.join(" "), a, b).unwrap();
@@ -403,7 +415,7 @@ fn main() {
             let script: Vec<String> = (0..n).map(|k| {
                 if failing && k == fail_at { CODES[4 + rng.below(4)].to_string() } else { CODES[rng.below(4)].to_string() }
             }).collect();
-            let pair = match i % 10 { 0 | 1 | 2 | 3 => "plain", 4 | 5 | 6 => "heap", 7 => "over", 8 => if n <= 40 { "big" } else { "plain" }, _ => *rng.pick(&["ne-size", "ne-align", "ne-both", "ne-heap", "ne-align-down", "ne-align-down2", "ne-size-down"]) };
+            let pair = match i % 10 { 0 | 1 | 3 => "plain", 2 => "plain-w", 4 | 6 => "heap", 5 => "heap-w", 7 => "over", 8 => if n <= 40 { "big" } else { "plain" }, _ => *rng.pick(&["ne-size", "ne-align", "ne-both", "ne-heap", "ne-align-down", "ne-align-down2", "ne-size-down"]) };
             emit(pair, n, &script, &mut req, &mut imp);
             nscripts += 1;
             if i % 10 == 0 {
